@@ -73,7 +73,7 @@ def all_trees(ops):
         out.append(realise(t, iter("abcdefgh")))
     return out
 
-STYLES = ["0000", "1000", "0100", "0011", "1111"]
+STYLES = ["000000", "100000", "010000", "001100", "000011", "001010", "000101", "111111"]
 
 def gen_trees(ctx):
     ops = BIN + UN
@@ -102,8 +102,8 @@ def run(ctx):
     # render every tree with the independent reference printer (Lean, Spec/RefPrinter)
     reqs, meta = [], []
     for i, (w, t) in enumerate(trees):
-        for mode in ("min", "full"):
-            stys = STYLES if (ctx.thorough or i % 5 == 0) else [STYLES[0], STYLES[(i % 4) + 1]]
+        for mode in ("min", "full", "printer"):
+            stys = STYLES if (ctx.thorough or i % 7 == 0) else [STYLES[0], STYLES[(i % 7) + 1]]
             for st in stys:
                 reqs.append(driver.req("refprint", mode, st, w)); meta.append((w, t, mode, st))
     try:
